@@ -72,6 +72,11 @@ def planeToBoxFn : P String := do
   let pp : V3 α ← pV3; let n ← pV3; let A ← pPose; let size ← pV3
   pure (outE ((planeToBox pp n A size).map rRes3))
 
+/-- args: plane_point plane_normal point1 point2 (the two support points computed by the implementation) -/
+def planeToSupportPairFn : P String := do
+  let pp : V3 α ← pV3; let n ← pV3; let a ← pV3; let b ← pV3
+  pure (outE ((planeToSupportPair pp n a b).map rRes3))
+
 /-- exact deciding quantities for arbitration (Q mode): for `line_to_line` the value `|det| - epsilon`;
 for segment functions `denom`; printed as scalars -/
 def decideLLFn : P String := do
@@ -94,6 +99,7 @@ def dispatch (fn : String) : Option (P String) :=
   | "C10.plane_to_triangle" => some (planeToTriangleFn (α := α))
   | "C10.plane_to_rectangle" => some (planeToRectangleFn (α := α))
   | "C10.plane_to_box" => some (planeToBoxFn (α := α))
+  | "C10.plane_to_support_pair" => some (planeToSupportPairFn (α := α))
   | "C10.decide_ll" => some (decideLLFn (α := α))
   | _ => none
 
